@@ -44,6 +44,8 @@ def _mk_solver(kind, timeout_ms):
         s = z3.Tactic("smt").solver()
     elif kind == "nlsat-vo5":  # nlsat, variable ordering strategy 5 (sqrt/quotient chains: 0.1 s where the default order needs > 30 s)
         s = z3.Then("simplify", "propagate-values", z3.With("qfnra-nlsat", variable_ordering_strategy=5)).solver()
+    elif kind == "nlsat-noreorder":  # nlsat in creation order = definitional (triangular) order of the defined symbols
+        s = z3.Then("simplify", "propagate-values", z3.With("qfnra-nlsat", reorder=False)).solver()
     else:
         s = z3.SolverFor(kind)
     s.set("timeout", int(timeout_ms))
